@@ -370,6 +370,9 @@ func (w *worker) runPath(ex *explorer, fn *ssa.Function, prefix []decision, repl
 			case targetPanic:
 				res.end = "panic:" + r.String()
 				ps.recordViolation("panic", "no-panic", r.String(), ps.model(nil))
+			case goroutinePanic:
+				res.end = "panic:" + r.tp.String()
+				ps.recordViolation("panic", "no-panic", "in a background goroutine: "+r.tp.String(), ps.model(nil))
 			case engineFault:
 				fault = "engine fault: " + r.msg
 			case abortPanic:
